@@ -145,6 +145,9 @@ func (x *Exec) callContract(st *State, con *Contract, callee *ssa.Function, args
 	seq := st.callSeq[short]
 	x.traceEvent(st, short, args, vars, site)
 	x.atCallChecks(st, short, seq, vars, site)
+	if x.thorough {
+		st.script = append(st.script, entry{kind: 'v', name: fmt.Sprintf("cover:before %s#%d@%s", short, seq, site)})
+	}
 	// receiver non-nil
 	if callee.Signature.Recv() != nil && len(args) > 0 {
 		if _, ok := args[0].T.Underlying().(*types.Pointer); ok && args[0].A == nil {
@@ -253,6 +256,11 @@ func (x *Exec) callContract(st *State, con *Contract, callee *ssa.Function, args
 		st.trace[n-1].res = rv
 	}
 	x.havocSharedCaptures(st)
+	if x.thorough {
+		// vacuity guard (thorough tier): the callee's postconditions must not make the path contradictory; flagged only
+		// if the state after this call is unsatisfiable on every path that reaches it
+		st.script = append(st.script, entry{kind: 'v', name: fmt.Sprintf("cover:after %s#%d@%s", short, seq, site)})
+	}
 	return rv
 }
 
@@ -559,6 +567,13 @@ func (x *Exec) callCallback(st *State, cc *ssa.CallCommon, args []Val, setResult
 		t := res.At(i).Type()
 		n := x.declConst(st, "cb", cx.sortOf(t))
 		x.typeFacts(st, n, t, 0)
+		// hypothesis on plugin constructor callbacks: they return a node (never nil, never a typed nil)
+		switch t.Underlying().(type) {
+		case *types.Interface:
+			x.assume(st, fmt.Sprintf("(and (not (= (if_tag %s) %s)) (not (= (if_val %s) %s)))", n, cx.num(0), n, cx.num(0)))
+		case *types.Pointer:
+			x.assume(st, fmt.Sprintf("(not (= %s %s))", n, cx.num(0)))
+		}
 		rvals = append(rvals, Val{S: n, T: t})
 	}
 	_ = fr
